@@ -32,9 +32,9 @@ Not proved here (listed explicitly):
 * `scratch_not_named` / `AgreeOutsideScratch` are relative to the registers THIS subroutine names:
   a register that an earlier subroutine of the same application left live but that the present one
   does not mention is a legal scratch register for `_replace_constants` (open SDK finding F42,
-  property C05: `new_register()` in an earlier flush).  That is outside C03's statement; the pass
-  lemma is already generic in the register set to avoid (`replaceConstants_preserves_reserved`), so a
-  `reserved registers` parameter of `assemble_subroutine`, once it exists, is one instantiation.
+  property C05: `new_register()` in an earlier flush).  The fix of F42 is the `reserved_registers`
+  parameter of `assemble_subroutine`; it is modelled (`reserved`, default `[]`) and every theorem
+  carries it: reserved registers are never scratch and keep their values (`reserved_preserved`).
 -/
 import NetqasmVerif.Lemmas.AsmBuild
 import NetqasmVerif.Lemmas.AsmMacros
@@ -116,43 +116,43 @@ theorem tableOk_vanilla : TableOk Gen.vanillaRows := by
 /-! ## simulation -/
 
 section
-variable {M : Type} {mc : Machine M} {P : List PCmd} {A : List Instr}
+variable {M : Type} {mc : Machine M} {P : List PCmd} {A : List Instr} {reserved : List Reg}
 
 /-- **One step.**  Every step of the source program is matched by steps of the assembled
 subroutine (the inserted `set`s, then the instruction itself) between the images of the two
 source positions; the states still agree outside the scratch set. -/
 theorem assemble_simulates (hm : StdLike mc) (hwf : LabelTargets mc P)
-    (hA : assemble Gen.vanillaRows Gen.excTable Gen.numScratch P = .ok A)
+    (hA : assemble Gen.vanillaRows Gen.excTable Gen.numScratch P reserved = .ok A)
     {s s' t : State M} {i i' : Nat}
-    (hstep : step mc P s i = .next s' i') (hag : AgreeOutsideScratch Gen.numScratch P s t) :
+    (hstep : step mc P s i = .next s' i') (hag : AgreeOutsideScratch Gen.numScratch P s t reserved) :
     ∃ t', Steps mc (A.map (embed Gen.vanillaRows)) (t, tpos Gen.excTable P i) (t', tpos Gen.excTable P i')
-      ∧ AgreeOutsideScratch Gen.numScratch P s' t' :=
+      ∧ AgreeOutsideScratch Gen.numScratch P s' t' reserved :=
   sim_step (setOk_of_stdLike hm) (excCovers_sound hm) hwf (assemble_embed tableOk_vanilla hA) hstep hag
 
 /-- **Every run** (any number of steps, no bound). -/
 theorem assemble_simulates_run (hm : StdLike mc) (hwf : LabelTargets mc P)
-    (hA : assemble Gen.vanillaRows Gen.excTable Gen.numScratch P = .ok A)
+    (hA : assemble Gen.vanillaRows Gen.excTable Gen.numScratch P reserved = .ok A)
     {s s' t : State M} {i i' : Nat}
-    (hrun : Steps mc P (s, i) (s', i')) (hag : AgreeOutsideScratch Gen.numScratch P s t) :
+    (hrun : Steps mc P (s, i) (s', i')) (hag : AgreeOutsideScratch Gen.numScratch P s t reserved) :
     ∃ t', Steps mc (A.map (embed Gen.vanillaRows)) (t, tpos Gen.excTable P i) (t', tpos Gen.excTable P i')
-      ∧ AgreeOutsideScratch Gen.numScratch P s' t' :=
+      ∧ AgreeOutsideScratch Gen.numScratch P s' t' reserved :=
   sim_run (setOk_of_stdLike hm) (excCovers_sound hm) hwf (assemble_embed tableOk_vanilla hA) hrun t hag
 
 /-- **Faults.**  A source instruction that faults makes the assembled subroutine fault with the
 same kind, inside the image of that very instruction, after steps that change only scratch
 registers. -/
 theorem assemble_simulates_fault (hm : StdLike mc) (hwf : LabelTargets mc P)
-    (hA : assemble Gen.vanillaRows Gen.excTable Gen.numScratch P = .ok A)
+    (hA : assemble Gen.vanillaRows Gen.excTable Gen.numScratch P reserved = .ok A)
     {s t : State M} {i k : Nat}
-    (hf : step mc P s i = .fault k) (hag : AgreeOutsideScratch Gen.numScratch P s t) :
+    (hf : step mc P s i = .fault k) (hag : AgreeOutsideScratch Gen.numScratch P s t reserved) :
     ∃ t' j, Steps mc (A.map (embed Gen.vanillaRows)) (t, tpos Gen.excTable P i) (t', j) ∧
       step mc (A.map (embed Gen.vanillaRows)) t' j = .fault k ∧
       tpos Gen.excTable P i ≤ j ∧ j < tpos Gen.excTable P (i + 1) ∧
-      AgreeOutsideScratch Gen.numScratch P s t' :=
+      AgreeOutsideScratch Gen.numScratch P s t' reserved :=
   sim_fault (setOk_of_stdLike hm) (excCovers_sound hm) hwf (assemble_embed tableOk_vanilla hA) hf hag
 
 /-- **Halting.**  When the source has run off its end, so has the assembled subroutine. -/
-theorem assemble_halts (hA : assemble Gen.vanillaRows Gen.excTable Gen.numScratch P = .ok A)
+theorem assemble_halts (hA : assemble Gen.vanillaRows Gen.excTable Gen.numScratch P reserved = .ok A)
     {s t : State M} {i : Nat} (hh : step mc P s i = .halt) :
     step mc (A.map (embed Gen.vanillaRows)) t (tpos Gen.excTable P i) = .halt :=
   sim_halt (assemble_embed tableOk_vanilla hA) hh
@@ -174,7 +174,7 @@ theorem tpos_skips_label {exc : List (String × Nat)} {k : Nat} {l : String} (h 
 /-- **`labels_correct`.**  The table built by `_assign_branch_labels` — *after* constant
 insertion — maps every label to the image of its source position. -/
 theorem labels_correct {exc : List (String × Nat)} {n : Nat} {P1 : List PCmd} (l : String)
-    (h1 : replaceConstants exc n (makeArgsOperands P) = .ok P1) :
+    (h1 : replaceConstants exc n (makeArgsOperands P) reserved = .ok P1) :
     lookupLabel (labelTable P1 0) l = (labelIdx P l).map (tpos exc P) := by
   have hna := noArgs_makeArgs P
   rw [lookup_labelTable, labelIdx_rcAll l h1, labelIdx_makeArgs, Option.map_map]
@@ -184,11 +184,11 @@ theorem labels_correct {exc : List (String × Nat)} {n : Nat} {P1 : List PCmd} (
 
 /-- **Every taken branch lands on the command that followed its label.** -/
 theorem branch_lands_after_label (hm : StdLike mc) (hwf : LabelTargets mc P)
-    (hA : assemble Gen.vanillaRows Gen.excTable Gen.numScratch P = .ok A)
+    (hA : assemble Gen.vanillaRows Gen.excTable Gen.numScratch P reserved = .ok A)
     {s s' t : State M} {i k : Nat} {l : String} (hl : labelIdx P l = some k)
-    (hstep : step mc P s i = .next s' (k + 1)) (hag : AgreeOutsideScratch Gen.numScratch P s t) :
+    (hstep : step mc P s i = .next s' (k + 1)) (hag : AgreeOutsideScratch Gen.numScratch P s t reserved) :
     ∃ t', Steps mc (A.map (embed Gen.vanillaRows)) (t, tpos Gen.excTable P i) (t', tpos Gen.excTable P k)
-      ∧ AgreeOutsideScratch Gen.numScratch P s' t' := by
+      ∧ AgreeOutsideScratch Gen.numScratch P s' t' reserved := by
   have := assemble_simulates hm hwf hA hstep hag
   rw [tpos_skips_label (labelIdx_spec hl)] at this
   exact this
@@ -201,18 +201,21 @@ theorem currentRegisters_covers {r : Reg} (h : NamedIn P r) : r ∈ currentRegis
   currentRegisters_covers' h
 
 /-- hence a scratch register is never a register of the program: `ScratchFresh` needs no hypothesis -/
-theorem scratch_not_named {n : Nat} {r : Reg} (h : IsScratch n (currentRegisters P) r) : ¬ NamedIn P r :=
-  fun hn => by obtain ⟨_, _, _, h'⟩ := h; exact h' (currentRegisters_covers hn)
+theorem scratch_not_named {n : Nat} {r : Reg} (h : IsScratch n (currentRegisters P ++ reserved) r) :
+    ¬ NamedIn P r ∧ r ∉ reserved := by
+  obtain ⟨_, _, _, h'⟩ := h
+  exact ⟨fun hn => h' (List.mem_append_left _ (currentRegisters_covers hn)), fun hr => h' (List.mem_append_right _ hr)⟩
 
 /-- **`replaceConstants_preserves`.**  One source step = the inserted `set`s + the patched
 instruction in the output of `_replace_constants`; registers named by `P` are undisturbed. -/
 theorem replaceConstants_preserves (hm : StdLike mc) {n : Nat} {P1 : List PCmd}
     (hna : NoArgs P) (hwf : LabelTargets mc P)
-    (h1 : replaceConstants Gen.excTable n P = .ok P1) {s s' t : State M} {i i' : Nat}
-    (hstep : step mc P s i = .next s' i') (hag : AgreeOutsideScratch n P s t) :
-    ∃ t', Steps mc P1 (t, tpos1 Gen.excTable P i) (t', tpos1 Gen.excTable P i') ∧ AgreeOutsideScratch n P s' t' :=
-  sim1_step (c := ⟨Gen.excTable, n, currentRegisters P⟩) (setOk_of_stdLike hm) (excCovers_sound hm) hna hwf
-    (fun _ hr => currentRegisters_covers hr) h1 hstep hag
+    (h1 : replaceConstants Gen.excTable n P reserved = .ok P1) {s s' t : State M} {i i' : Nat}
+    (hstep : step mc P s i = .next s' i') (hag : AgreeOutsideScratch n P s t reserved) :
+    ∃ t', Steps mc P1 (t, tpos1 Gen.excTable P i) (t', tpos1 Gen.excTable P i') ∧
+      AgreeOutsideScratch n P s' t' reserved :=
+  sim1_step (c := ⟨Gen.excTable, n, currentRegisters P ++ reserved⟩) (setOk_of_stdLike hm) (excCovers_sound hm)
+    hna hwf (fun _ hr => List.mem_append_left _ (currentRegisters_covers hr)) h1 hstep hag
 
 /-! ## nothing dropped, duplicated or reordered -/
 
@@ -221,14 +224,14 @@ source instructions (labels erased): each block is the `set <scratch> <literal>`
 that instruction (distinct scratch registers that the program does not name) followed by the
 instruction itself with patched operands. -/
 theorem no_drop_dup_reorder {exc : List (String × Nat)} {n : Nat} {P2 : List PCmd}
-    (h : assembleProto exc n P = .ok P2) :
+    (h : assembleProto exc n P reserved = .ok P2) :
     ∃ (tbl : List (String × Nat)) (blocks : List (List (Reg × Int) × PCmd)),
       P2 = blocks.flatMap blockCode ∧
       Forall2 (fun src b => CmdPatched exc tbl b.1 (makeArgsCmd src) b.2 ∧
-          (∀ rv ∈ b.1, IsScratch n (currentRegisters P) rv.1) ∧ (b.1.map Prod.fst).Nodup)
+          (∀ rv ∈ b.1, IsScratch n (currentRegisters P ++ reserved) rv.1) ∧ (b.1.map Prod.fst).Nodup)
         (instrsOf P) blocks := by
   obtain ⟨P1, h1, h2⟩ := assembleProto_inv h
-  obtain ⟨blocks, hb, hf⟩ := structure_rcAll (c := ⟨exc, n, currentRegisters (makeArgsOperands P)⟩)
+  obtain ⟨blocks, hb, hf⟩ := structure_rcAll (c := ⟨exc, n, currentRegisters (makeArgsOperands P) ++ reserved⟩)
     (labelTable P1 0) (noArgs_makeArgs P) h1
   refine ⟨labelTable P1 0, blocks, by rw [assignBranchLabels_ok h2, hb], ?_⟩
   rw [currentRegisters_makeArgs] at hf
@@ -237,8 +240,8 @@ theorem no_drop_dup_reorder {exc : List (String × Nat)} {n : Nat} {P2 : List PC
   exact forall2_of_map hf
 
 /-- the instruction classes are built from exactly these commands: `embed ∘ build = id` -/
-theorem build_faithful (hA : assemble Gen.vanillaRows Gen.excTable Gen.numScratch P = .ok A) :
-    assembleProto Gen.excTable Gen.numScratch P = .ok (A.map (embed Gen.vanillaRows)) :=
+theorem build_faithful (hA : assemble Gen.vanillaRows Gen.excTable Gen.numScratch P reserved = .ok A) :
+    assembleProto Gen.excTable Gen.numScratch P reserved = .ok (A.map (embed Gen.vanillaRows)) :=
   assemble_embed tableOk_vanilla hA
 
 end
@@ -332,7 +335,7 @@ theorem exec_is_instance (a : Nat) (X : List Exec.Instr) (t : State XMem) (k : N
   step_corr a X t k
 
 section
-variable {P : List PCmd} {A : List Instr}
+variable {P : List PCmd} {A : List Instr} {reserved : List Reg}
 
 /-- **`assemble_simulates_exec`.**  Source runs (proto program `P` under the executor's own
 instruction semantics, labels no-ops, literals evaluating to themselves) are reproduced by the
@@ -340,12 +343,12 @@ EXECUTOR MODEL `Exec.stepLoc` running the assembled subroutine `X` (the instruct
 `Exec.Instr`), from the image of the start position to the image of the end position, the
 states agreeing outside the scratch set. -/
 theorem assemble_simulates_exec (a : Nat) (hwf : LabelTargets xMachine P)
-    (hA : assemble Gen.vanillaRows Gen.excTable Gen.numScratch P = .ok A)
+    (hA : assemble Gen.vanillaRows Gen.excTable Gen.numScratch P reserved = .ok A)
     (X : List Exec.Instr) (hX : A.map (embed Gen.vanillaRows) = X.map ofExec)
     {s s' t : State XMem} {i i' : Nat}
-    (hrun : Steps xMachine P (s, i) (s', i')) (hag : AgreeOutsideScratch Gen.numScratch P s t) :
+    (hrun : Steps xMachine P (s, i) (s', i')) (hag : AgreeOutsideScratch Gen.numScratch P s t reserved) :
     ∃ t', XSteps a X (conc t, (tpos Gen.excTable P i : Int)) (conc t', (tpos Gen.excTable P i' : Int))
-      ∧ AgreeOutsideScratch Gen.numScratch P s' t' := by
+      ∧ AgreeOutsideScratch Gen.numScratch P s' t' reserved := by
   obtain ⟨t', hst, hag'⟩ := assemble_simulates_run stdLike_xMachine hwf hA hrun hag
   rw [hX] at hst
   exact ⟨t', xsteps_of_steps a X hst, hag'⟩
@@ -353,15 +356,15 @@ theorem assemble_simulates_exec (a : Nat) (hwf : LabelTargets xMachine P)
 /-- … and a faulting source instruction makes the executor model fault with the same
 `Exec.Fault`, inside the image of that instruction. -/
 theorem assemble_simulates_exec_fault (a : Nat) (hwf : LabelTargets xMachine P)
-    (hA : assemble Gen.vanillaRows Gen.excTable Gen.numScratch P = .ok A)
+    (hA : assemble Gen.vanillaRows Gen.excTable Gen.numScratch P reserved = .ok A)
     (X : List Exec.Instr) (hX : A.map (embed Gen.vanillaRows) = X.map ofExec)
     {s t : State XMem} {i : Nat} {f : Exec.Fault}
-    (hf : step xMachine P s i = .fault (faultCode f)) (hag : AgreeOutsideScratch Gen.numScratch P s t) :
+    (hf : step xMachine P s i = .fault (faultCode f)) (hag : AgreeOutsideScratch Gen.numScratch P s t reserved) :
     ∃ (t' : State XMem) (j : Nat) (x : Exec.Instr) (l' : Exec.Loc),
       XSteps a X (conc t, (tpos Gen.excTable P i : Int)) (conc t', (j : Int)) ∧
       X[j]? = some x ∧ Exec.stepLoc false a x (conc t') (j : Int) = .fault l' f ∧
       tpos Gen.excTable P i ≤ j ∧ j < tpos Gen.excTable P (i + 1) ∧
-      AgreeOutsideScratch Gen.numScratch P s t' := by
+      AgreeOutsideScratch Gen.numScratch P s t' reserved := by
   obtain ⟨t', j, hst, hfj, hlo, hhi, hag'⟩ := assemble_simulates_fault stdLike_xMachine hwf hA hf hag
   rw [hX] at hst hfj
   obtain ⟨x, hx, hk⟩ := (step_corr a X t' j).2 _ hfj
@@ -397,24 +400,40 @@ theorem source_operand_text_roundtrip (o : POperand) (ho : Text.pOpOk Gen.syms o
 example : Text.pOpOk Gen.syms (.slice 2 (.reg ⟨0, 1⟩) (.lit 3)) := by
   simp only [Text.pOpOk, Text.valOfRI, Text.valOk]; decide
 
-/-! ## registers to avoid beyond those the subroutine names (hook for F42) -/
+/-! ## reserved registers (`assemble_subroutine(reserved_registers=…)`, the fix of F42)
 
-/-- `_replace_constants` with a larger set of registers to avoid (`currentRegisters P ++ reserved`):
-the same simulation, and the agreement then also covers every reserved register. -/
+Every theorem above carries the `reserved` set of the call: `AgreeOutsideScratch … reserved` is
+agreement on all registers except the `R i` that are neither named by the subroutine nor
+reserved, so reserved registers keep their values through every run of the assembled subroutine. -/
+
+/-- the pass-level statement, kept under its earlier name -/
 theorem replaceConstants_preserves_reserved {M : Type} {mc : Machine M} {P : List PCmd} (hm : StdLike mc)
     (reserved : List Reg) {n : Nat} {P1 : List PCmd} (hna : NoArgs P) (hwf : LabelTargets mc P)
-    (h1 : rcAll ⟨Gen.excTable, n, currentRegisters P ++ reserved⟩ P = .ok P1) {s s' t : State M} {i i' : Nat}
-    (hstep : step mc P s i = .next s' i') (hag : Agree n (currentRegisters P ++ reserved) s t) :
+    (h1 : replaceConstants Gen.excTable n P reserved = .ok P1) {s s' t : State M} {i i' : Nat}
+    (hstep : step mc P s i = .next s' i') (hag : AgreeOutsideScratch n P s t reserved) :
     ∃ t', Steps mc P1 (t, tpos1 Gen.excTable P i) (t', tpos1 Gen.excTable P i') ∧
-      Agree n (currentRegisters P ++ reserved) s' t' :=
-  sim1_step (c := ⟨Gen.excTable, n, currentRegisters P ++ reserved⟩) (setOk_of_stdLike hm) (excCovers_sound hm)
-    hna hwf (fun _ hr => List.mem_append_left _ (currentRegisters_covers hr)) h1 hstep hag
+      AgreeOutsideScratch n P s' t' reserved :=
+  replaceConstants_preserves hm hna hwf h1 hstep hag
 
-/-- a reserved register is never a scratch register of that pass -/
+/-- a reserved register is never a scratch register -/
 theorem reserved_not_scratch {P : List PCmd} {reserved : List Reg} {n : Nat} {r : Reg}
-    (h : IsScratch n (currentRegisters P ++ reserved) r) : r ∉ reserved := by
-  obtain ⟨_, _, _, h'⟩ := h
-  exact fun hr => h' (List.mem_append_right _ hr)
+    (h : IsScratch n (currentRegisters P ++ reserved) r) : r ∉ reserved :=
+  (scratch_not_named h).2
+
+/-- **reserved registers survive.**  A register in the reserved set that the subroutine does not
+write keeps its value: it has the same value in the assembled run as in the source run. -/
+theorem reserved_preserved {M : Type} {n : Nat} {P : List PCmd} {reserved : List Reg} {s t : State M}
+    {r : Reg} (hr : r ∈ reserved) (hag : AgreeOutsideScratch n P s t reserved) : s.regs r = t.regs r :=
+  hag.2 r (fun h => (scratch_not_named h).2 hr)
+
+/-- the witness of F42 in the model: with `R0` reserved the scratch register of `store 7 @0[R1]`
+is `R2`, without it `R0` -/
+theorem F42_reserved_witness :
+    (assembleProto Gen.excTable Gen.numScratch [.instr "store" [] [.lit 7, .entry 0 (.reg ⟨0, 1⟩)]] [⟨0, 0⟩]).toOption
+      = some [.instr "set" [] [.reg ⟨0, 2⟩, .lit 7], .instr "store" [] [.reg ⟨0, 2⟩, .entry 0 (.reg ⟨0, 1⟩)]] ∧
+    (assembleProto Gen.excTable Gen.numScratch [.instr "store" [] [.lit 7, .entry 0 (.reg ⟨0, 1⟩)]]).toOption
+      = some [.instr "set" [] [.reg ⟨0, 0⟩, .lit 7], .instr "store" [] [.reg ⟨0, 0⟩, .entry 0 (.reg ⟨0, 1⟩)]] := by
+  decide +kernel
 
 /-! ## macros -/
 
